@@ -200,6 +200,11 @@ def gen_num_expr(c: Ctx, vars_, depth: int, in_binop: bool = False):
                     ["num", "10000000000000000000000"],
                     ["bin", "+", ["num", "2147483647"], ["num", "1"]],
                     ["bin", "*", ["bin", "*", ["num", "2000"], ["num", "2000"]], ["num", "2000"]],
+                    # integer literals raised to small integer powers (a printer may expand them to products)
+                    ["bin", "**", ["num", "100000"], ["num", "2"]],
+                    ["bin", "**", ["num", "65536"], ["num", "2"]],
+                    ["bin", "**", ["num", "2000"], ["num", "3"]],
+                    ["bin", "**", ["num", "50000"], ["num", "2"]],
                 ])
                 sub = gen_num_expr(c, vars_, depth - 1)
                 return c.pick([["bin", "*", big, sub], ["bin", "/", sub, big], ["bin", "+", ["bin", "/", sub, big], ["num", "1"]]])
